@@ -61,6 +61,8 @@ val filter : ('a1 -> bool) -> 'a1 list -> 'a1 list
 
 val combine : 'a1 list -> 'a2 list -> ('a1 * 'a2) list
 
+val firstn : nat -> 'a1 list -> 'a1 list
+
 val nodup : ('a1 -> 'a1 -> bool) -> 'a1 list -> 'a1 list
 
 val seq : nat -> nat -> nat list
@@ -437,6 +439,18 @@ type fdecl = { f_args : ty3 list; f_ret : ty3; f_impl : fimpl }
 type registry = (str * fdecl) list
 
 val ty3_eqb : ty3 -> ty3 -> bool
+
+val s_length : str
+
+val s_count : str
+
+val s_value : str
+
+val s_match : str
+
+val s_search : str
+
+val builtin_registry : registry
 
 type envcfg = { min_idx : z; max_idx : z; max_depth : nat; reg : registry;
                 rx : (bool -> str -> str -> bool) }
@@ -1034,6 +1048,22 @@ val raw_ok : n -> n -> bool
 
 val spec_decode : n -> str -> str option
 
+val count_lf : str -> z -> z
+
+val rfind_lf_from : str -> z -> z -> z -> z
+
+val rfind_lf : str -> z -> z
+
+val m_position : str -> z -> z * z
+
+val is_lf : n -> bool
+
+val line_of : str -> nat -> z
+
+val since_last_lf : str -> z -> z
+
+val col_of : str -> nat -> z
+
 val iota_json : z -> json list
 
 val enc_sel0 : (z * json) list -> z list
@@ -1061,5 +1091,9 @@ val op_in_rfc : z list -> z list
 val op_valid : z list -> z list
 
 val op_strlit : z list -> z list
+
+val op_errpos : z list -> z list
+
+val op_linecol : z list -> z list
 
 val dispatch : z list -> z list
